@@ -25,7 +25,9 @@ import (
 	"sync"
 	"time"
 
+	"github.com/krotik/ecal/config"
 	"github.com/krotik/ecal/engine"
+	"github.com/krotik/ecal/interpreter"
 )
 
 func init() { register("C10", runC10) }
@@ -314,6 +316,11 @@ type c10Scenario struct {
 	Kinds   [][]c10Rule `json:"kinds"` // rules per event kind; adds only name later kinds
 	Initial []c10Init   `json:"initial"`
 	Ncasc   int         `json:"ncasc"`
+	// history of the processor object before the observed run: the flag is set first, then
+	// Resets times "Finish(); Reset(); add the rules again" (what cli/tool does on every
+	// (re)load); Provider = the processor of an ECAL runtime provider (flag on by default)
+	Resets   int  `json:"resets"`
+	Provider bool `json:"provider"`
 }
 
 type c10Log struct {
@@ -339,8 +346,22 @@ type c10Run struct {
 func c10runScenario(sc c10Scenario) (*c10Run, bool, string) {
 	var mu sync.Mutex
 	run := &c10Run{errors: map[int][]int{}}
-	proc := engine.NewProcessor(1)
-	proc.SetFailOnFirstErrorInTriggerSequence(sc.Flag)
+	var proc engine.Processor
+	if sc.Provider {
+		// interpreter.NewECALRuntimeProvider switches fail-on-first-error on at construction
+		erp := interpreter.NewECALRuntimeProvider("c10", nil, nil)
+		defer erp.Cron.Stop()
+		proc = erp.Processor
+		if proc.Workers() != 1 {
+			return nil, false, "provider with several workers"
+		}
+		if !sc.Flag {
+			proc.SetFailOnFirstErrorInTriggerSequence(false)
+		}
+	} else {
+		proc = engine.NewProcessor(1)
+		proc.SetFailOnFirstErrorInTriggerSequence(sc.Flag)
+	}
 	entered := make(chan struct{}, 1)
 	release := make(chan struct{})
 	nextTask := 1
@@ -381,32 +402,49 @@ func c10runScenario(sc c10Scenario) (*c10Run, bool, string) {
 		}
 	}
 
-	must(proc.AddRule(&engine.Rule{Name: "gate", KindMatch: []string{"c10.gate"}, ScopeMatch: []string{}, Priority: 0,
-		Action: func(p engine.Processor, m engine.Monitor, e *engine.Event, tid uint64) error {
-			entered <- struct{}{}
-			<-release
-			return nil
-		}}))
-	for k, rules := range sc.Kinds {
-		for j, r := range rules {
-			k, j, r := k, j, r
-			must(proc.AddRule(&engine.Rule{Name: fmt.Sprintf("k%dr%d", k, j), KindMatch: []string{fmt.Sprintf("c10.k%d", k)},
-				ScopeMatch: []string{}, Priority: r.Prio,
-				Action: func(p engine.Processor, m engine.Monitor, e *engine.Event, tid uint64) error {
-					mu.Lock()
-					defer mu.Unlock()
-					rm := m.RootMonitor()
-					ci := cascOf[rm.ID()]
-					run.log = append(run.log, c10Log{K: "start", Cascade: ci, Task: taskOf[e.Name()], Rule: c10ruleID(k, j), HP: rm.HighestPriority()})
-					for _, a := range r.Adds {
-						addEvent(p, m, ci, a)
-					}
-					if r.Fails {
-						return fmt.Errorf("scripted failure")
-					}
-					return nil
-				}}))
+	addRules := func() {
+		must(proc.AddRule(&engine.Rule{Name: "gate", KindMatch: []string{"c10.gate"}, ScopeMatch: []string{}, Priority: 0,
+			Action: func(p engine.Processor, m engine.Monitor, e *engine.Event, tid uint64) error {
+				entered <- struct{}{}
+				<-release
+				return nil
+			}}))
+		for k, rules := range sc.Kinds {
+			for j, r := range rules {
+				k, j, r := k, j, r
+				must(proc.AddRule(&engine.Rule{Name: fmt.Sprintf("k%dr%d", k, j), KindMatch: []string{fmt.Sprintf("c10.k%d", k)},
+					ScopeMatch: []string{}, Priority: r.Prio,
+					Action: func(p engine.Processor, m engine.Monitor, e *engine.Event, tid uint64) error {
+						mu.Lock()
+						defer mu.Unlock()
+						rm := m.RootMonitor()
+						ci := cascOf[rm.ID()]
+						run.log = append(run.log, c10Log{K: "start", Cascade: ci, Task: taskOf[e.Name()], Rule: c10ruleID(k, j), HP: rm.HighestPriority()})
+						for _, a := range r.Adds {
+							addEvent(p, m, ci, a)
+						}
+						if r.Fails {
+							return fmt.Errorf("scripted failure")
+						}
+						return nil
+					}}))
+			}
 		}
+	}
+	addRules()
+	for i := 0; i < sc.Resets; i++ {
+		// Reset only removes the rules (and the trigger cache): the flag is a setting of the
+		// processor and stays.  The first round resets a processor that never ran, the
+		// later ones one that was started and finished.
+		if i > 0 {
+			proc.Start()
+		}
+		proc.Finish()
+		must(proc.Reset())
+		if len(proc.Rules()) != 0 {
+			panic("harness: rules left after Reset")
+		}
+		addRules()
 	}
 	proc.Start()
 	gateRM := proc.NewRootMonitor(nil, nil)
@@ -658,6 +696,32 @@ func c10scenarioPart(c *Ctx) {
 		}
 	}
 	c.Extra["systematic_rule_scenarios"] = nsys
+	// processor history: the flag is set, then the processor is finished and reset 0, 1 or 2
+	// times (rules added again) before the observed event; engine API and runtime provider;
+	// 2..3 rules, the failing rule(s) not last
+	nreset := 0
+	for resets := 0; resets <= 2; resets++ {
+		for _, provider := range []bool{false, true} {
+			for _, flag := range []bool{true, false} {
+				for v := 0; v < c.Pick(4, 16) && !c.Enough(); v++ {
+					k := 2 + v%2
+					rules := make([]c10Rule, k)
+					for j := range rules {
+						rules[j] = c10Rule{Prio: j + v/2%2, Adds: []c10Add{{1, (v + j) % 4}}}
+					}
+					rules[0].Fails = true
+					if v%4 >= 2 {
+						rules[1].Fails = true
+						rules[0].Fails = v%8 >= 4
+					}
+					nreset++
+					c10scenarioOne(c, c10Scenario{Flag: flag, Kinds: [][]c10Rule{rules, leaf}, Ncasc: 1, Initial: []c10Init{{0, 0, 1}, {0, 0, 0}},
+						Resets: resets, Provider: provider}, "reset-history-rules-only")
+				}
+			}
+		}
+	}
+	c.Extra["reset_history_scenarios"] = nreset
 	// boundary priorities: every ordered pair of the pool for a 2-rule event, the failing rule at
 	// each rank or none, both settings of the flag; each rule adds a child event whose monitor
 	// priority is from the pool as well (queue trace and monitor history emitted for a subset)
@@ -726,14 +790,15 @@ func c10scenarioPart(c *Ctx) {
 			}
 			initial = append(initial, c10Init{c.Rng.Intn(nc), kind, c.Rng.Intn(6) - 1})
 		}
-		c10scenarioOne(c, c10Scenario{Flag: c.Rng.Intn(2) == 0, Kinds: kinds, Ncasc: nc, Initial: initial}, "random")
+		c10scenarioOne(c, c10Scenario{Flag: c.Rng.Intn(2) == 0, Kinds: kinds, Ncasc: nc, Initial: initial, Resets: c.Rng.Intn(5) % 3, Provider: c.Rng.Intn(6) == 0}, "random")
 	}
 }
 
 func runC10(c *Ctx) error {
-	c.Rule = "(a) monitor API histories on one cascade: corpus (F15, F16 witnesses), every priority assignment over {0..3} for <=2 children x every protocol-respecting order of activate/skip/finish incl. the root monitor, every assignment for 3 and 4 children x sampled orders (thorough: also {0..5} for 5 and {0..4} for 6 children), random longer histories with interleaved creation and priorities from {-2..100} and the boundary pool {MinInt64, MinInt64+1, -5e18, -2, -1, 0, 1, 2, 5e18, MaxInt64-1, MaxInt64}; HighestPriority() compared after every call.  (b,c) processor scenarios with one worker held by a gate event while the initial events of 1..3 cascades are queued: systematic = one event with 1..3 (thorough 4) rules over priorities {0..3}, the failing rule at every rank / none / two, both settings of fail-on-first-error, every rule adding a child event; boundary = every ordered pair of the boundary pool as the priorities of a 2-rule event (failing rule at each rank / none, both flag settings) and random triples, child monitor priorities from the pool; random = up to 3 levels of event kinds, 1..4 rules each, skipped (non-triggering) child events, priorities -1..4; observed: queue trace (push/pop with the cascade chosen), per-cascade monitor history with HighestPriority() sampled inside every action, per event the action start sequence and the error report.  non-trivial = history with a finish or skip / trace with more than one pop / event with several rules or a failing one"
+	c.Rule = "(a) monitor API histories on one cascade: corpus (F15, F16 witnesses), every priority assignment over {0..3} for <=2 children x every protocol-respecting order of activate/skip/finish incl. the root monitor, every assignment for 3 and 4 children x sampled orders (thorough: also {0..5} for 5 and {0..4} for 6 children), random longer histories with interleaved creation and priorities from {-2..100} and the boundary pool {MinInt64, MinInt64+1, -5e18, -2, -1, 0, 1, 2, 5e18, MaxInt64-1, MaxInt64}; HighestPriority() compared after every call.  (b,c) processor scenarios with one worker held by a gate event while the initial events of 1..3 cascades are queued: systematic = one event with 1..3 (thorough 4) rules over priorities {0..3}, the failing rule at every rank / none / two, both settings of fail-on-first-error, every rule adding a child event; reset-history = the flag is set (engine API, or the ECAL runtime provider's default on), then the processor goes 0, 1 or 2 times through Finish(); Reset(); rules added again, before the observed event with a failing non-last rule; boundary = every ordered pair of the boundary pool as the priorities of a 2-rule event (failing rule at each rank / none, both flag settings) and random triples, child monitor priorities from the pool; random = up to 3 levels of event kinds, 1..4 rules each, skipped (non-triggering) child events, priorities -1..4; observed: queue trace (push/pop with the cascade chosen), per-cascade monitor history with HighestPriority() sampled inside every action, per event the action start sequence and the error report.  non-trivial = history with a finish or skip / trace with more than one pop / event with several rules or a failing one"
 	c.BeginCases("From Coq Require Import List ZArith.\nFrom Ecal Require Import Run.RunC10.\nImport ListNotations.\nOpen Scope Z_scope.", "raw", 1000)
 	engine.UnitTestResetIDs()
+	config.Config[config.WorkerCount] = 1 // the processor of a runtime provider: one worker, as everywhere here
 	c10proc = engine.NewProcessor(1)
 
 	if c.Replay != "" {
